@@ -13,6 +13,8 @@ from .. import core, sanitize, treework as tw
 
 VARIANT = "deflt-chk"
 INTS = [0, 1, -1, 7, 42, -42, 255, 4096, -4096, 10 ** 10, -10 ** 20, 2 ** 64, 123456789]
+# machine-word boundaries, both signs (i8 .. i128): where a fast path for small integers would end
+INTS += [sgn * (2 ** k + d) for k in (7, 8, 15, 16, 31, 32, 63, 64, 127, 128) for d in (-1, 0, 1) for sgn in (1, -1)]
 FLOATS = [0.0, -0.0, 0.5, 1.0, -1.5, 3.14159, 1234.5678, -1234.5678, 1e-7, 1e16, 1e100, 123456789.123, 2.5, 0.0001, float("inf"), float("-inf"), float("nan")]
 # NaNs with the sign bit set / with payloads (Python never prints a sign for them unless asked)
 FLOATS += [struct.unpack("<d", struct.pack("<Q", b))[0] for b in (0xFFF8000000000000, 0x7FF8000000000001, 0xFFF0000000000001, 0xFFFFFFFFFFFFFFFF)]
@@ -46,7 +48,7 @@ def gen_spec(rng, bytes_mode):
         nstars += 1
     k = rng.random()
     if k < .4:
-        s += "." + rng.choice(["", "0", "1", "2", "3", "6", "10"])
+        s += "." + rng.choice(["", "0", "1", "2", "3", "6", "10", "15", "16", "17", "18", "19", "20", "25", "40"])
     elif k < .48 and key is None:
         s += ".*"
         nstars += 1
